@@ -26,7 +26,7 @@ RULE = ('(a) coarse-grained molecules produced by the real upstream pipeline (ch
         'blocks: +/- and >/</* prefixes, explicit order, Choice values, edges, non-edges, patterns, molmeta, replace, '
         'removals, versions, geometry parameters, later links overriding earlier ones. Non-trivial = >= 1 link with >= 2 '
         'placements and >= 1 link whose node-attribute-only candidates were all rejected by order/edges/non-edges/'
-        'patterns. distinct = distinct (force field, molecule) hashes.')
+        'patterns. distinct = distinct (force field, molecule) hashes. Also: links with one to three non-edges towards next/previous/own residue, links with three different order prefixes (at least one symbolic), molecules with branched inter-residue bonds registered before or after the main-chain bond.')
 ASSUMPTIONS = ['a link never matches on an attribute it replaces itself (order of effects inside one link is unspecified)',
                'two templates of one link landing on the same atoms and version are ambiguous and not generated',
                'numeric parameters compared after rounding to 6 decimals; list order of interactions is not compared']
